@@ -1,6 +1,9 @@
 import Pyunicorn.Lemmas.Recurrence
 import Pyunicorn.Lemmas.RecurrenceReal
 import Pyunicorn.Model.RecurrenceObjects
+import Pyunicorn.Lemmas.RecurrenceAdaptive
+import Pyunicorn.Lemmas.RecurrenceAffine
+import Pyunicorn.Lemmas.RecurrenceStd
 /-!
 # C07 — recurrence matrices are exactly the thresholded distance matrices
 
@@ -584,5 +587,498 @@ theorem euclid_lt_iff_sqrt_lt (a b : List Rat) (eps : Rat) :
 
 example : metricQ .euclidean [0, 3] [4, 0] = 25 ∧ metricQ .manhattan [0, 3] [4, 0] = 7
     ∧ metricQ .supremum [0, 3] [4, 0] = 4 := by decide +kernel
+
+/-! ### adaptive neighbourhood size: the kernel never raises, the matrix is symmetric -/
+
+theorem argsortV_perm (row : List V) : (argsortV row).Perm (List.range row.length) := by
+  unfold argsortV
+  have h1 := (List.mergeSort_perm row.zipIdx (fun a b => leV a.1 b.1)).map (·.2)
+  refine h1.trans ?_
+  have : row.zipIdx.map (·.2) = List.range row.length := by
+    rw [List.range_eq_range', List.zipIdx_eq_zip_range']
+    exact List.map_snd_zip (by simp)
+  rw [this]
+
+theorem argsortV_length (row : List V) : (argsortV row).length = row.length := by
+  simpa using (argsortV_perm row).length_eq
+
+theorem argsortV_lt (row : List V) : ∀ c ∈ argsortV row, c < row.length := by
+  intro c hc
+  have := (argsortV_perm row).mem_iff.mp hc
+  simpa using this
+
+theorem argsortV_nodup (row : List V) : (argsortV row).Nodup :=
+  (argsortV_perm row).nodup_iff.mpr List.nodup_range
+
+
+/-- the neighbour table `distance.argsort(axis=1)` of an `n×n` distance matrix is well formed:
+`n` rows, each a permutation of `0 … n−1` -/
+theorem argsort_table_ok (m : Metric) (emb : List (List V)) :
+    snOK (distRP m emb).length ((distRP m emb).map argsortV) := by
+  have hlen : (distRP m emb).length = emb.length := by simp [distRP, tab_length]
+  refine ⟨by simp, ?_⟩
+  intro r hr
+  obtain ⟨row, hrow, rfl⟩ := List.mem_map.mp hr
+  have hrl : row.length = emb.length := by
+    simp only [distRP, tab, List.mem_map, List.mem_range] at hrow
+    obtain ⟨i, _, rfl⟩ := hrow
+    simp
+  rw [hlen]
+  exact ⟨by rw [argsortV_length, hrl], fun c hc => by have := argsortV_lt row c hc; omega⟩
+
+/-- **the adaptive kernel never raises** on an `n×n` neighbour table with entries `< n` and a
+processing order with entries `< n` (the claim of repair 9c70d12, for all inputs) -/
+theorem adaptive_never_raises (n kA : Nat) (sn : List (List Nat)) (order : List Nat)
+    (hsn : snOK n sn) (ho : ∀ l ∈ order, l < n) : ∃ R, adaptive n kA sn order = some R :=
+  adaptive_total n kA sn order hsn ho
+
+/-- **the adaptive recurrence matrix is symmetric** and lies inside the `n×n` array -/
+theorem adaptive_symmetric (n kA : Nat) (sn : List (List Nat)) (order : List Nat) (R : BM)
+    (h : adaptive n kA sn order = some R) (a b : Nat) :
+    R a b = R b a ∧ (R a b = true → a < n ∧ b < n) :=
+  ⟨adaptive_symm n kA sn order R h a b, adaptive_in_range n kA sn order R h a b⟩
+
+/-- **at least the requested number of neighbours**: when the row of `sorted_neighbors` is
+duplicate-free with entries `< n` (a permutation) and `kA ≤ n − 1`, row `l` of the result
+holds at least `kA` recurrences — and at least `kA` *other* states when the state itself
+sorts first. -/
+theorem adaptive_at_least_k (n kA : Nat) (sn : List (List Nat)) (order : List Nat) (R : BM)
+    (h : adaptive n kA sn order = some R) (l : Nat) (hl : l ∈ order) (snl : List Nat)
+    (hsn : sn[l]? = some snl) (hlen : snl.length = n) (hnd : snl.Nodup)
+    (hlt : ∀ c ∈ snl, c < n) (hk : kA + 1 ≤ n) :
+    kA ≤ countTrue ((List.range n).map (R l)) ∧
+    (snl[0]? = some l → kA ≤ ((List.range n).filter fun c => R l c && (c != l)).length) :=
+  ⟨adaptive_count_ge n kA sn order R h l hl snl hsn hlen hnd hlt hk,
+   fun h0 => adaptive_count_ge_offdiag n kA sn order R h l hl snl hsn hlen hnd hlt hk h0⟩
+
+/-- **`RecurrencePlot(adaptive_neighborhood_size=kA)` / `set_adaptive_neighborhood_size(kA, order)`
+at the object level** (argsort + kernel): for the default order or any caller order that is
+a list of `n` state indices, the method returns (no IndexError), reports `N` = side of `R`,
+`R` is symmetric, and for `kA ≤ n − 1` every processed state has at least `kA` recurrences. -/
+theorem adaptive_plot_spec (m : Metric) (emb : List (List V)) (kA : Nat) (order : Option (List Nat))
+    (ho : ∀ o, order = some o → o.length = emb.length ∧ ∀ l ∈ o, l < emb.length) :
+    ∃ R : BM, adaptivePlot m emb kA order = .ok ⟨bmTab emb.length R, emb.length, emb.length⟩
+      ∧ (bmTab emb.length R).length = emb.length
+      ∧ (∀ a b, R a b = R b a)
+      ∧ (kA + 1 ≤ emb.length → ∀ l ∈ order.getD (List.range emb.length),
+          kA ≤ countTrue ((List.range emb.length).map (R l))) := by
+  have hlen : (distRP m emb).length = emb.length := by simp [distRP, tab_length]
+  have hok := argsort_table_ok m emb
+  rw [hlen] at hok
+  -- the processing order
+  have hord : (order.getD (List.range emb.length)).length = emb.length
+      ∧ ∀ l ∈ order.getD (List.range emb.length), l < emb.length := by
+    cases order with
+    | none => simp
+    | some o => simpa using ho o rfl
+  obtain ⟨R, hR⟩ := adaptive_total emb.length kA ((distRP m emb).map argsortV)
+    (order.getD (List.range emb.length)) hok hord.2
+  refine ⟨R, ?_, by simp [bmTab, tab_length], adaptive_symm _ _ _ _ R hR, ?_⟩
+  · unfold adaptivePlot
+    simp only [hlen]
+    have h1 : ¬ ((order.getD (List.range emb.length)).length < emb.length ∧ 0 < kA) := by
+      rw [hord.1]; omega
+    rw [if_neg h1]
+    have h2 : (order.getD (List.range emb.length)).take emb.length
+        = order.getD (List.range emb.length) := by
+      rw [List.take_of_length_le (by rw [hord.1])]
+    rw [h2, hR]
+    rfl
+  · intro hk l hl
+    have hl' : l < emb.length := hord.2 l hl
+    have hrow : ((distRP m emb).map argsortV)[l]? = some (argsortV ((distRP m emb)[l]'(by omega))) := by
+      rw [List.getElem?_map, List.getElem?_eq_getElem (by omega)]; rfl
+    have hrl : ((distRP m emb)[l]'(by omega)).length = emb.length := by
+      simp [distRP, tab]
+    exact adaptive_count_ge emb.length kA _ _ R hR l hl _ hrow
+      (by rw [argsortV_length, hrl]) (argsortV_nodup _)
+      (fun c hc => by have := argsortV_lt _ c hc; omega) hk
+
+/-- the hypotheses are satisfiable (default order; a reversed caller order) and not vacuous:
+a table row with an entry `≥ n` makes the kernel raise -/
+example : snOK 3 [[0, 1, 2], [1, 0, 2], [2, 1, 0]] ∧
+    (adaptive 2 1 [[0, 5], [1, 0]] [0, 1]).isNone = true := ⟨⟨rfl, by decide⟩, by decide⟩
+
+
+/-! ### `threshold_std`: the threshold is `s·σ` of the stored series -/
+
+/-- the comparison `distance < threshold_std·std` in the model's units: the Euclidean kernel
+value is a square already, the other two are squared -/
+def ltStd (m : Metric) (d tsq : V) : Bool :=
+  match m with
+  | .euclidean => ltV d tsq
+  | _ => ltV (mulV d d) tsq
+
+/-- **`set_fixed_threshold_std`**: `R[i,j] = 1` exactly when the kernel distance is below
+`threshold_std · std(series)` (in squared units, see `std_threshold_real`), and — with
+`missing_values=True` — neither state holds a missing value. -/
+theorem rec_iff_dist_lt_std (m : Metric) (series emb : List (List V)) (s : Rat) (mv : Bool)
+    (i j : Nat) (hi : i < emb.length) (hj : j < emb.length) :
+    entry (fixedThresholdStd m series emb s mv) i j
+      = some (ltStd m (rpEntry m emb i j) (stdThrSq s (varV series.flatten))
+              && (!mv || (!missingAt emb i && !missingAt emb j))) := by
+  unfold fixedThresholdStd maskIf
+  cases mv
+  · simp only [Bool.false_eq_true, if_false, thresholdSq, distRP, entry_map_map, entry_tab, hi, hj,
+      and_self, if_true, Option.map_some, ltStd]
+    cases m <;> simp
+  · simp only [if_true, applyMask_entry, thresholdSq, distRP, entry_map_map, entry_tab, hi, hj,
+      and_self, Option.map_some, ltStd, missingAt]
+    cases m <;> simp [Bool.and_assoc]
+
+/-- **the squared comparison is the comparison with `s·√var` over ℝ**: for complete state
+vectors `a`, `b` and a series with variance `v`, the model's decision is
+`d(a,b) < s · √v` with `d` the Manhattan / supremum distance, resp. `√(Σ(aᵢ−bᵢ)²)`. -/
+theorem std_threshold_real (m : Metric) (a b : List Rat) (s v : Rat) (hv : 0 ≤ v) :
+    ltStd m (dist m (a.map some) (b.map some)) (stdThrSq s (some v)) = true
+      ↔ (match m with
+          | .euclidean => Real.sqrt ((metricQ .euclidean a b : Rat) : ℝ)
+          | m => ((metricQ m a b : Rat) : ℝ)) < (s : ℝ) * Real.sqrt (v : ℝ) := by
+  have hd : 0 ≤ metricQ m a b := dist_nonneg m _ _ _ (dist_complete m a b)
+  rw [dist_complete]
+  cases m with
+  | euclidean =>
+    simp only [ltStd, stdThrSq, Option.map_some, ltV, decide_eq_true_eq]
+    exact (sqrt_lt_mul_sqrt_iff _ v s hd hv).symm
+  | manhattan =>
+    simp only [ltStd, stdThrSq, Option.map_some, ltV, mulV, decide_eq_true_eq]
+    exact (lt_mul_sqrt_iff _ v s hd hv).symm
+  | supremum =>
+    simp only [ltStd, stdThrSq, Option.map_some, ltV, mulV, decide_eq_true_eq]
+    exact (lt_mul_sqrt_iff _ v s hd hv).symm
+
+/-- the variance the threshold uses is the population variance of all entries of the stored
+series, and it is never negative (so `std_threshold_real` applies) -/
+theorem std_variance (l : List Rat) (h : l ≠ []) :
+    ∃ v, varV (l.map some) = some v ∧ 0 ≤ v ∧
+      v = (l.map fun x => (x - l.sum / (l.length : Rat)) * (x - l.sum / (l.length : Rat))).sum
+            / (l.length : Rat) :=
+  ⟨_, varV_some l h, varV_nonneg _ _ (varV_some l h), rfl⟩
+
+/-- a NaN in the series makes the standard deviation NaN: nothing is recurrent -/
+example : fixedThresholdStd .supremum (column [some 0, none, some 1]) (column [some 0, none, some 1])
+    10 false = [[false, false, false], [false, false, false], [false, false, false]] := by
+  decide +kernel
+
+/-- series 0,4,0,4 (σ = 2), `threshold_std = 1/2`: threshold 1 -/
+example : fixedThresholdStd .manhattan (column [some 0, some 4, some 0, some 4])
+    (column [some 0, some 4, some 0, some 4]) (1/2) false
+    = [[true, false, true, false], [false, true, false, true], [true, false, true, false],
+       [false, true, false, true]] := by decide +kernel
+
+/-! ### `normalize=True` -/
+
+/-- **`normalize_time_series` is the affine map `x ↦ (x − μ)/σ`** with `μ` the mean and `σ > 0`,
+`σ² = ` variance of the column (whenever the variance is a non-zero rational square) -/
+theorem normalize_is_affine (col col' : List V) (v : Rat) (h : normalizeCol col = some col')
+    (hv : varV col = some v) (hv0 : v ≠ 0) :
+    ∃ mu sd, meanV col = some mu ∧ 0 < sd ∧ sd * sd = v ∧ col' = col.map (affV mu sd) :=
+  normalizeCol_spec col col' v h hv hv0
+
+/-- **distances after normalisation** are the raw distances divided by `σ` (`σ²` for the
+squared Euclidean kernel value) -/
+theorem dist_rescale (m : Metric) (mu sd : Rat) (hsd : 0 < sd) (a b : List V) :
+    dist m (a.map (affV mu sd)) (b.map (affV mu sd))
+      = (dist m a b).map (fun d => match m with | .euclidean => d / (sd * sd) | _ => d / sd) :=
+  dist_affine m mu sd hsd a b
+
+/-- **normalising a scalar series and thresholding its (delay-embedded) states at `ε` is
+thresholding the raw series at `ε·σ`** (`threshold_std = ε`), with or without missing-value
+treatment — so the normalised plot is a thresholded distance matrix of the given series. -/
+theorem normalized_plot_eq_std_plot (m : Metric) (ts ts' : List V) (v : Rat) (dim tau len : Nat)
+    (eps : Rat) (mv : Bool) (h : normalizeCol ts = some ts') (hv : varV ts = some v)
+    (hv0 : v ≠ 0) :
+    fixedThreshold m (embed ts' dim tau len) eps mv
+        = fixedThresholdStd m (column ts) (embed ts dim tau len) eps mv
+    ∧ fixedThreshold m (column ts') eps mv = fixedThresholdStd m (column ts) (column ts) eps mv :=
+  ⟨normalized_threshold_eq_std m ts ts' v dim tau len eps mv h hv hv0,
+   normalized_threshold_eq_std_column m ts ts' v eps mv h hv hv0⟩
+
+/-- the exact square root used by the model is a square root -/
+theorem ratSqrt_sound (q r : Rat) (h : ratSqrt? q = some r) : 0 ≤ r ∧ r * r = q :=
+  ratSqrt?_sound q r h
+
+example : normalizeCol [some (-4), some 1, some 1, some 1, some 1]
+    = some [some (-2), some (1/2), some (1/2), some (1/2), some (1/2)] := by decide +kernel
+
+
+/-! ### the composed objects: cross, joint, inter-system -/
+
+/-- **cross recurrence plot, fixed threshold**: `CR` is `N×M` with `N`, `M` the numbers of state
+vectors the object reports, and `CR[i,j] = 1 ⇔ d(x_i, y_j) < ε` -/
+theorem cross_rec_iff_dist_lt (m : Metric) (ex ey : List (List V)) (eps : Rat) :
+    ∃ p, crossPlot m ex ey (.thr eps) = .ok p ∧ p.N = ex.length ∧ p.M = ey.length
+      ∧ p.R.length = ex.length ∧ (∀ row ∈ p.R, row.length = ey.length)
+      ∧ ∀ i j, i < ex.length → j < ey.length →
+          entry p.R i j = some (ltV (dist m (rowOf ex i) (rowOf ey j)) (some (unitThr m eps))) := by
+  refine ⟨_, rfl, rfl, rfl, ?_, ?_, ?_⟩
+  · simp [threshold, distCRP, tab_length]
+  · intro row hrow
+    simp only [threshold, distCRP, tab, List.map_map, List.mem_map, List.mem_range] at hrow
+    obtain ⟨i, _, rfl⟩ := hrow
+    simp
+  · intro i j hi hj
+    simp [threshold, distCRP, entry_map_map, entry_tab, hi, hj]
+
+/-- **cross recurrence plot, fixed rate**: `CR` is the cross distance matrix thresholded at the
+generated quantile index of all `N·M` distances; at most that many entries are recurrent; the
+reported sizes are those of `CR` -/
+theorem cross_rate_spec (m : Metric) (ex ey : List (List V)) (rr : Rat) (p : Plot)
+    (h : crossPlot m ex ey (.rate rr) = .ok p) :
+    p.N = ex.length ∧ p.M = ey.length ∧ p.R.length = ex.length ∧
+    ∃ t, (sortV (distCRP m ex ey).flatten)[rateK rr (distCRP m ex ey).flatten.length]? = some t
+      ∧ p.R = threshold (distCRP m ex ey) t
+      ∧ countTrue p.R.flatten ≤ rateK rr (distCRP m ex ey).flatten.length := by
+  simp only [crossPlot] at h
+  cases hq : fixedRate (distCRP m ex ey) (rateK rr (distCRP m ex ey).flatten.length) with
+  | none => rw [hq] at h; simp only [Res.ofOption, Res.bind] at h; cases h
+  | some R =>
+    rw [hq] at h; simp only [Res.ofOption, Res.bind, Res.ok.injEq] at h
+    subst h
+    obtain ⟨t, h1, h2, h3⟩ := global_rate_le _ _ _ hq
+    refine ⟨rfl, rfl, ?_, t, h1, h2, h3⟩
+    show R.length = ex.length
+    rw [h2, threshold_length]; simp [distCRP, tab_length]
+
+theorem distRP_eq_tab (m : Metric) (emb : List (List V)) :
+    distRP m emb = tab emb.length emb.length (rpEntry m emb) := rfl
+
+/-- both signs of the lag in one statement (the generated bounds of `set_fixed_threshold`):
+two `n×n` matrices compose to the side-`n − |lag|` matrix of the pairs `(t, t + lag)` -/
+theorem joint_compose (n : Nat) (fx fy : Nat → Nat → Bool) (lag : Int) (hl : lag.natAbs ≤ n) :
+    jointSlices (tab n n fx) (tab n n fy) lag (jBoundsThr n lag)
+      = some (tab (n - lag.natAbs) (n - lag.natAbs) fun i j =>
+          if lag ≥ 0 then fx i j && fy (i + lag.natAbs) (j + lag.natAbs)
+          else fy i j && fx (i + lag.natAbs) (j + lag.natAbs)) := by
+  by_cases hpos : lag ≥ 0
+  · obtain ⟨k, rfl⟩ : ∃ k : Nat, lag = k := ⟨lag.toNat, by omega⟩
+    rw [joint_eq_product_pos n _ _ k (by simpa using hl)]
+    simp
+  · obtain ⟨k, rfl, hk0⟩ : ∃ k : Nat, lag = -(k : Int) ∧ 0 < k := ⟨lag.natAbs, by omega, by omega⟩
+    rw [joint_eq_product_neg n _ _ k hk0 (by simpa using hl)]
+    have : k ≠ 0 := by omega
+    simp [this]
+
+/-- **joint recurrence plot, fixed thresholds, at the object level** (`__init__` pruning +
+`set_fixed_threshold` + the generated slice bounds and reported `N`): for `n` = the smaller
+number of state vectors and `|lag| ≤ n`, the object holds
+`JR[i,j] = [d_x(i,j) < ε₁] ∧ [d_y(i+lag, j+lag) < ε₂]` for `lag ≥ 0`, resp.
+`[d_y(i,j) < ε₂] ∧ [d_x(i+ℓ, j+ℓ) < ε₁]` for `lag = −ℓ < 0`, of side `n − |lag|`, and reports
+`N = n − |lag|`. -/
+theorem joint_plot_thr_spec (mx my : Metric) (ex ey : List (List V)) (nRaw n : Nat) (lag : Int)
+    (e1 e2 : Rat) (hn : min ex.length ey.length = n) (hraw : lag.natAbs ≤ nRaw)
+    (hl : lag.natAbs ≤ n) :
+    jointPlot mx my ex ey nRaw lag (.thr e1) (.thr e2) = .ok
+      ⟨tab (n - lag.natAbs) (n - lag.natAbs) (fun i j =>
+          if lag ≥ 0 then
+            ltV (rpEntry mx (ex.take n) i j) (some (unitThr mx e1))
+              && ltV (rpEntry my (ey.take n) (i + lag.natAbs) (j + lag.natAbs)) (some (unitThr my e2))
+          else
+            ltV (rpEntry my (ey.take n) i j) (some (unitThr my e2))
+              && ltV (rpEntry mx (ex.take n) (i + lag.natAbs) (j + lag.natAbs))
+                  (some (unitThr mx e1))),
+        ((n - lag.natAbs : Nat) : Int), ((n - lag.natAbs : Nat) : Int)⟩ := by
+  have hXl : (ex.take n).length = n := by rw [List.length_take]; omega
+  have hYl : (ey.take n).length = n := by rw [List.length_take]; omega
+  unfold jointPlot
+  simp only [hn, show ¬ (lag.natAbs > nRaw) by omega, if_false]
+  rw [distRP_eq_tab, distRP_eq_tab, hXl, hYl, threshold_tab, threshold_tab, joint_compose n _ _ lag hl]
+  simp only [Res.ofOption, Res.bind, (joint_size_consistent n lag hl).1]
+
+/-- **every RQA method is applicable to a joint plot**: whenever a joint plot is built with
+`|lag|` not exceeding the number of state vectors, the reported `N` is the side of `JR`
+(threshold and rate constructors) -/
+theorem rqa_applicable_joint (mx my : Metric) (ex ey : List (List V)) (nRaw n : Nat) (lag : Int)
+    (sx sy : Spec) (p : Plot) (hn : min ex.length ey.length = n) (hl : lag.natAbs ≤ n)
+    (h : jointPlot mx my ex ey nRaw lag sx sy = .ok p) : p.N = p.R.length := by
+  have hXl : (ex.take n).length = n := by rw [List.length_take]; omega
+  have hYl : (ey.take n).length = n := by rw [List.length_take]; omega
+  have hN := joint_size_consistent n lag hl
+  unfold jointPlot at h
+  simp only [hn] at h
+  by_cases hraw : lag.natAbs > nRaw
+  · simp only [hraw, if_true] at h; cases h
+  · simp only [hraw, if_false] at h
+    cases sx with
+    | thr e1 =>
+      cases sy with
+      | thr e2 =>
+        simp only [distRP_eq_tab, hXl, hYl, threshold_tab, joint_compose n _ _ lag hl,
+          Res.ofOption, Res.bind, Res.ok.injEq] at h
+        subst h
+        simp only [hN.1, tab_length]
+      | rate _ => cases h
+      | localRate _ => cases h
+    | rate r1 =>
+      cases sy with
+      | thr _ => cases h
+      | localRate _ => cases h
+      | rate r2 =>
+        simp only [distRP_eq_tab, hXl, hYl] at h
+        cases hx : fixedRate (tab n n (rpEntry mx (ex.take n))) _ with
+        | none => rw [hx] at h; simp only [Res.ofOption, Res.bind] at h; cases h
+        | some Rx =>
+          rw [hx] at h; simp only [Res.ofOption, Res.bind] at h
+          cases hy : fixedRate (tab n n (rpEntry my (ey.take n))) _ with
+          | none => rw [hy] at h; simp only [Res.ofOption, Res.bind] at h; cases h
+          | some Ry =>
+            rw [hy] at h; simp only [Res.ofOption, Res.bind] at h
+            obtain ⟨tx, _, hRx, _⟩ := global_rate_le _ _ _ hx
+            obtain ⟨ty, _, hRy, _⟩ := global_rate_le _ _ _ hy
+            rw [hRx, hRy, threshold_tab, threshold_tab, joint_rate_bounds_eq,
+              joint_compose n _ _ lag hl] at h
+            simp only [Res.ofOption, Res.bind, Res.ok.injEq] at h
+            subst h
+            simp only [hN.2, tab_length]
+    | localRate _ => cases h
+
+/-- blocks of the right shapes always fit: the assembly cannot raise -/
+theorem isrm_fits (Nx Ny : Nat) (Rx Ry CR : List (List Bool))
+    (hx : Rx.length = Nx ∧ ∀ r ∈ Rx, r.length = Nx) (hy : Ry.length = Ny ∧ ∀ r ∈ Ry, r.length = Ny)
+    (hc : CR.length = Nx ∧ ∀ r ∈ CR, r.length = Ny) : ∃ I, isrm Nx Ny Rx Ry CR = some I := by
+  unfold isrm
+  have f : ∀ (M : List (List Bool)) (r c : Nat), (M.length = r ∧ ∀ x ∈ M, x.length = c) →
+      (M.length == r && M.all (·.length == c)) = true := by
+    intro M r c ⟨h1, h2⟩
+    simp only [Bool.and_eq_true, beq_iff_eq, List.all_eq_true]
+    exact ⟨h1, h2⟩
+  simp only [f Rx Nx Nx hx, f Ry Ny Ny hy, f CR Nx Ny hc, Bool.and_self, if_true]
+  exact ⟨_, rfl⟩
+
+theorem threshold_rows (D : List (List V)) (t : V) (k : Nat) (h : ∀ r ∈ D, r.length = k) :
+    ∀ r ∈ threshold D t, r.length = k := by
+  intro r hr
+  simp only [threshold, List.mem_map] at hr
+  obtain ⟨row, hrow, rfl⟩ := hr
+  simpa using h row hrow
+
+theorem tab_rows {α : Type} (n k : Nat) (f : Nat → Nat → α) : ∀ r ∈ tab n k f, r.length = k := by
+  intro r hr
+  simp only [tab, List.mem_map, List.mem_range] at hr
+  obtain ⟨i, _, rfl⟩ := hr
+  simp
+
+/-- **the assembly as the code writes it is the block matrix**: `np.zeros((N, N))` followed by the
+four slice assignments of `inter_system_recurrence_matrix`, with every written slice bound and
+`N` generated from the source, is `isrm` (hence `isrm_blocks/_symm/_size` hold of the code's
+assembly; a changed bound breaks this proof and changes the driver's answers) -/
+theorem isrm_assembly_eq (nx ny : Nat) (Rx Ry CR : List (List Bool)) :
+    assemble (ArithC07.isrnTotalN nx ny).toNat
+      (isrmParts (ArithC07.isrnTotalN nx ny) nx ny Rx Ry CR) = isrm nx ny Rx Ry CR := by
+  have h1 : ((nx : Int) + (ny : Int)).toNat = nx + ny := by omega
+  have h2 : ((nx : Int) + (ny : Int)) = ((nx + ny : Nat) : Int) := by push_cast; rfl
+  simp only [isrmParts, ArithC07.isrnTotalN, ArithC07.isrmXXRowHi, ArithC07.isrmXXColHi,
+    ArithC07.isrmXYRowHi, ArithC07.isrmXYColLo, ArithC07.isrmXYColHi, ArithC07.isrmYXRowLo,
+    ArithC07.isrmYXRowHi, ArithC07.isrmYXColHi, ArithC07.isrmYYRowLo, ArithC07.isrmYYRowHi,
+    ArithC07.isrmYYColLo, ArithC07.isrmYYColHi, h1]
+  rw [h2]
+  exact assemble_isrm nx ny Rx Ry CR
+
+/-- **inter-system recurrence network, fixed thresholds, at the object level**: the three
+sub-plots always fit their blocks (no `ValueError`), the network has `N_x + N_y` nodes = side
+of the inter-system matrix `I = [[Rx, CR], [CRᵀ, Ry]]` (`isrm_blocks`), and the adjacency is
+`I` without its diagonal. -/
+theorem inter_system_thr_spec (m : Metric) (ex ey : List (List V)) (a b c : Rat) :
+    ∃ I, isrm ex.length ey.length (fixedThreshold m ex a false) (fixedThreshold m ey b false)
+          (threshold (distCRP m ex ey) (some (unitThr m c))) = some I
+      ∧ I.length = ex.length + ey.length
+      ∧ interSystem m ex ey (.thr a) (.thr b) (.thr c) false
+          = .ok ⟨adjacencyOf I ((ex.length : Int) + ey.length + 1), I,
+                 ((ex.length + ey.length : Nat) : Int)⟩
+      ∧ ∀ i j, i < ex.length + ey.length → j < ex.length + ey.length →
+          entry (adjacencyOf I ((ex.length : Int) + ey.length + 1)) i j
+            = (entry I i j).map fun v => v && decide (i ≠ j) := by
+  have hx : (fixedThreshold m ex a false).length = ex.length
+      ∧ ∀ r ∈ fixedThreshold m ex a false, r.length = ex.length := by
+    simp only [fixedThreshold, Bool.false_eq_true, if_false]
+    exact ⟨by simp [threshold_length, distRP, tab_length], threshold_rows _ _ _ (tab_rows _ _ _)⟩
+  have hy : (fixedThreshold m ey b false).length = ey.length
+      ∧ ∀ r ∈ fixedThreshold m ey b false, r.length = ey.length := by
+    simp only [fixedThreshold, Bool.false_eq_true, if_false]
+    exact ⟨by simp [threshold_length, distRP, tab_length], threshold_rows _ _ _ (tab_rows _ _ _)⟩
+  have hc : (threshold (distCRP m ex ey) (some (unitThr m c))).length = ex.length
+      ∧ ∀ r ∈ threshold (distCRP m ex ey) (some (unitThr m c)), r.length = ey.length :=
+    ⟨by simp [threshold_length, distCRP, tab_length], threshold_rows _ _ _ (tab_rows _ _ _)⟩
+  obtain ⟨I, hI⟩ := isrm_fits _ _ _ _ _ hx hy hc
+  have hlen : I.length = ex.length + ey.length := by
+    have := isrm_size _ _ _ _ _ I hI
+    simp [ArithC07.isrnTotalN] at this
+    omega
+  refine ⟨I, hI, hlen, ?_, ?_⟩
+  · simp only [interSystem, recurrencePlot, crossPlot, Res.bind, isrm_assembly_eq, hI, Res.ofOption,
+      Bool.false_eq_true, if_false]
+    simp only [ArithC07.isrnStride, ArithC07.isrnTotalN]
+    have : (adjacencyOf I ((ex.length : Int) + ey.length + 1)).length = ex.length + ey.length := by
+      simp [adjacencyOf, zeroStride, hlen]
+    rw [this]
+  · intro i j hi hj
+    exact network_eq_R_offdiag I _ i j (by rw [hlen]; push_cast; ring) (by omega) (by omega)
+
+/-- **local fixed rate at the matrix level**: row `i` of the result is row `i` of the distance
+matrix thresholded at its own `k`-th smallest entry (so the row theorems
+`local_rate_row_count`/`_eq` apply to every row of the stored matrix) -/
+theorem local_rate_rows (D : List (List V)) (k : Nat) (R : List (List Bool))
+    (h : fixedLocalRate D k = some R) (i : Nat) (row : List V) (hrow : D[i]? = some row) :
+    ∃ t, quantileAt row k = some t ∧ R[i]? = some (row.map fun d => ltV d t) := by
+  unfold fixedLocalRate at h
+  induction D generalizing R i with
+  | nil => simp at hrow
+  | cons r D ih =>
+    simp only [List.mapM_cons, Option.bind_eq_bind] at h
+    cases h1 : quantileAt r k with
+    | none => simp [h1] at h
+    | some t =>
+      cases h2 : List.mapM (fun row => (quantileAt row k).map fun t => row.map fun d => ltV d t) D with
+      | none => simp [h1, h2] at h
+      | some R' =>
+        simp [h1, h2] at h
+        subst h
+        cases i with
+        | zero =>
+          simp only [List.getElem?_cons_zero, Option.some.injEq] at hrow
+          subst hrow
+          exact ⟨t, h1, by simp⟩
+        | succ i =>
+          simp only [List.getElem?_cons_succ] at hrow ⊢
+          exact ih R' h2 i hrow
+
+theorem thresholdSq_tab' (m : Metric) (n k : Nat) (f : Nat → Nat → V) (t : V) :
+    thresholdSq m (tab n k f) t = tab n k fun i j => ltStd m (f i j) t := by
+  cases m <;> simp [thresholdSq, tab, List.map_map, Function.comp_def, ltStd]
+
+/-- **joint recurrence plot with `threshold_std`** (`set_fixed_threshold_std` → `set_fixed_threshold`):
+the same composition with the thresholds `s₁·std(x)`, `s₂·std(y)` of the two stored series -/
+theorem joint_plot_std_spec (mx my : Metric) (sX sY ex ey : List (List V)) (nRaw n : Nat)
+    (lag : Int) (s1 s2 : Rat) (hn : min ex.length ey.length = n) (hraw : lag.natAbs ≤ nRaw)
+    (hl : lag.natAbs ≤ n) :
+    jointPlotStd mx my sX sY ex ey nRaw lag s1 s2 = .ok
+      ⟨tab (n - lag.natAbs) (n - lag.natAbs) (fun i j =>
+          if lag ≥ 0 then
+            ltStd mx (rpEntry mx (ex.take n) i j) (stdThrSq s1 (varV sX.flatten))
+              && ltStd my (rpEntry my (ey.take n) (i + lag.natAbs) (j + lag.natAbs))
+                  (stdThrSq s2 (varV sY.flatten))
+          else
+            ltStd my (rpEntry my (ey.take n) i j) (stdThrSq s2 (varV sY.flatten))
+              && ltStd mx (rpEntry mx (ex.take n) (i + lag.natAbs) (j + lag.natAbs))
+                  (stdThrSq s1 (varV sX.flatten))),
+        ((n - lag.natAbs : Nat) : Int), ((n - lag.natAbs : Nat) : Int)⟩ := by
+  have hXl : (ex.take n).length = n := by rw [List.length_take]; omega
+  have hYl : (ey.take n).length = n := by rw [List.length_take]; omega
+  unfold jointPlotStd
+  simp only [hn, show ¬ (lag.natAbs > nRaw) by omega, if_false]
+  rw [distRP_eq_tab, distRP_eq_tab, hXl, hYl, thresholdSq_tab', thresholdSq_tab',
+    joint_compose n _ _ lag hl]
+  simp only [Res.ofOption, Res.bind, (joint_size_consistent n lag hl).1]
+
+/-- **a network built from any plot** (`RecurrenceNetwork`, `JointRecurrenceNetwork`: constructor and
+every setter, with the generated strides): as soon as the plot reports `N` = side of `R`, the
+adjacency is `R` without its diagonal and the network has as many nodes as `R` has rows -/
+theorem network_of_plot (p : Plot) (stride : Int) (hN : p.N = p.R.length) (hs : stride = p.N + 1) :
+    (networkOf p stride).N = p.R.length ∧ (networkOf p stride).R = p.R ∧
+    ∀ i j, i < p.R.length → j < p.R.length →
+      entry (networkOf p stride).A i j = (entry p.R i j).map fun b => b && decide (i ≠ j) := by
+  refine ⟨by simp [networkOf, adjacencyOf, zeroStride], rfl, ?_⟩
+  intro i j hi hj
+  exact network_eq_R_offdiag p.R stride i j (by rw [hs, hN]) hi hj
 
 end Pyunicorn.Recurrence
